@@ -3,7 +3,7 @@
 CONSTANTS Budget = 2 MaxItems = 1 Sim = FALSE Headers = "pairs"
   Masked = {"item_b", "params1", "params2", "pipe", "call", "use", "expr_stmt", "ctor_unq", "ctor_unq_labelled",
             "block", "lambda", "binop", "list", "tuple", "own_ctor_labelled", "own_ctor2_labelled", "own_field",
-            "two_clauses", "clause_alt", "pas", "plit", "ptuple", "plist", "pconcat", "p_own_ctor", "p_own_ctor2", "p_own_ctor_pos"}
+            "two_clauses", "clause_alt", "unknown_field", "case_nobind_bind", "pas", "plit", "ptuple", "plist", "pconcat", "p_own_ctor", "p_own_ctor2", "p_own_ctor_pos"}
 SPECIFICATION Spec
 INVARIANTS PendingInvisible TargetsAreBinders Balanced ScopeDeclarative RenameComplete EmitCase
 CHECK_DEADLOCK FALSE
